@@ -14,6 +14,7 @@ type Seg struct {
 	ln     *Term
 	wd     *Term
 	rn     *Term // abstract rune variable (BV32) if this segment is one rune
+	num    *Term // the integer this segment is the decimal rendering of (BV64), if it is one
 }
 
 type Rope struct{ segs []Seg }
@@ -126,6 +127,9 @@ func (ex *Exec) sprintf(format string, args []Value) Value {
 		if i >= len(format) {
 			break
 		}
+		for i < len(format) && strings.IndexByte("0123456789.+-# ", format[i]) >= 0 {
+			i++ // width / precision / flags: the symbolic renderings below do not depend on them
+		}
 		verb := format[i]
 		i++
 		if verb == '%' {
@@ -159,8 +163,24 @@ func (ex *Exec) sprintf(format string, args []Value) Value {
 			if x.IsConst() {
 				lit(fmt.Sprint(int64(sext(x.val, x.sort))))
 			} else {
-				dc := ex.digitCount(ex.ts.SExt(x, 64))
-				out.segs = append(out.segs, Seg{opaque: true, ln: dc, wd: dc})
+				x64 := ex.ts.SExt(x, 64)
+				dc := ex.digitCount(x64)
+				out.segs = append(out.segs, Seg{opaque: true, ln: dc, wd: dc, num: x64})
+			}
+		case 'f':
+			fv, ok := a.(FVal)
+			if !ok {
+				panic(unsupported(fmt.Sprintf("Sprintf %%f of %T", a)))
+			}
+			if p, ok := ex.percentContract(fv); ok {
+				dc := ex.digitCount(p)
+				out.segs = append(out.segs, Seg{opaque: true, ln: dc, wd: dc, num: p})
+			} else {
+				// any other float rendering: 1..24 ASCII characters (contract stub)
+				l := ex.nondet(64)
+				ex.assume(ex.ts.And(ex.ts.Bin(OpSLe, ex.ts.Const(64, 1), l), ex.ts.Bin(OpSLe, l, ex.ts.Const(64, 24))))
+				out.segs = append(out.segs, Seg{opaque: true, ln: l, wd: l})
+				ex.stubsUsed["float:rendering free (1..24 ASCII)"]++
 			}
 		case 'x':
 			var bs []*Term
@@ -326,6 +346,47 @@ func (ex *Exec) floatToInt(v FVal) *Term {
 	}
 	ex.stubsUsed["float:free"]++
 	return r
+}
+
+// percentContract recognises  round(float64(s) * 100.0 / float64(z))  and returns a fresh integer P under the contract
+// IEEE arithmetic gives it:  0 <= s <= z, z > 0  =>  0 <= P <= 100,  s = z => P = 100,  and P is monotone in s for a
+// fixed z (multiplication by a positive constant, division by a positive value and rounding are monotone) — the
+// latter asserted against every earlier rendering of the path.
+type pctRec struct{ s, z, p *Term }
+
+func (ex *Exec) percentContract(v FVal) (*Term, bool) {
+	if v.op != "round" {
+		return nil, false
+	}
+	d, ok := v.args[0].(FVal)
+	if !ok || d.op != "/" {
+		return nil, false
+	}
+	m, ok := d.args[0].(FVal)
+	if !ok || m.op != "*" {
+		return nil, false
+	}
+	s, ok1 := ex.fromInt(m.args[0])
+	c, ok2 := m.args[1].(FVal)
+	z, ok3 := ex.fromInt(d.args[1])
+	if !ok1 || !ok2 || !ok3 || c.op != "const:100" {
+		return nil, false
+	}
+	ts := ex.ts
+	zero, hundred := ts.Const(64, 0), ts.Const(64, 100)
+	p := ex.nondet(64)
+	valid := ts.And(ts.And(ts.Bin(OpSLe, zero, s), ts.Bin(OpSLe, s, z)), ts.Bin(OpSLt, zero, z))
+	ex.assume(ts.Or(ts.Not(valid), ts.And(ts.Bin(OpSLe, zero, p), ts.Bin(OpSLe, p, hundred))))
+	ex.assume(ts.Or(ts.Not(ts.And(valid, ts.Eq(s, z))), ts.Eq(p, hundred)))
+	recs, _ := ex.side["pct"].([]pctRec)
+	for _, q := range recs {
+		same := ts.And(valid, ts.Eq(q.z, z))
+		ex.assume(ts.Or(ts.Not(ts.And(same, ts.Bin(OpSLe, q.s, s))), ts.Bin(OpSLe, q.p, p)))
+		ex.assume(ts.Or(ts.Not(ts.And(same, ts.Bin(OpSLe, s, q.s))), ts.Bin(OpSLe, p, q.p)))
+	}
+	ex.side["pct"] = append(recs, pctRec{s, z, p})
+	ex.stubsUsed["float:percentage contract (range, 100 at the end, monotone in the position)"]++
+	return p, true
 }
 
 func (ex *Exec) fromInt(v Value) (*Term, bool) {
